@@ -109,7 +109,9 @@ func otherSeq(t *rapid.T) uint32 {
 func genProg(t *rapid.T) libexec.Prog {
 	flags := sgen.Flags(t, sgen.FlagPoolNonSig)
 	var p sgen.Program
-	switch rapid.IntRange(0, 12).Draw(t, "level") {
+	switch rapid.IntRange(0, 13).Draw(t, "level") {
+	case 13:
+		p = sgen.DegenerateP2SH(t, flags)
 	case 12:
 		p = sgen.DeepStack(t, flags)
 	case 10:
